@@ -246,6 +246,9 @@ class CoherentFeedForwardLoop:
         # Update circuit breaker
         if result.success and not result.blocked:
             self._record_success()
+        elif not result.success and z_out.action_type == "FAILURE":
+            # Executor failures are reported as blocked results; they still count
+            self._record_failure()
         elif result.blocked:
             # Blocks are intentional, not failures
             pass
